@@ -4,6 +4,7 @@ P: produce encoders proved equal to the layout (see proof section below).
 B: produced bytes == independent reference encoder (contracts/wire.py); real parser recovers every
    field; re-producing the parsed message regenerates the bytes — over a boundary lattice.
 """
+from .util import distinct_keys
 import itertools
 import random
 import struct
@@ -382,7 +383,7 @@ def bounded(tier, seed):
         d0 = {'service': svc, 'status': st, ctx: {'data': [1, 2, 255]}}
         want = bytes([svc, 0, st, 0]) + (bytes([1, 2, 255]) if st == 0 else b'')
         C.check('attribute-reply', (svc, st), lambda d0=d0: device.Object.produce(dd(d0)), want)
-    return dict(evaluations=C.ev, distinct_nontrivial=len(C.distinct),
+    return dict(evaluations=C.ev, distinct_nontrivial=len(C.distinct), distinct_keys=distinct_keys(C.distinct),
                 rule='boundary lattice: every integer type at {min,min+1,0,1,max-1,max}, network-order variants, BOOL, REAL/LREAL; SSTRING/STRING lengths '
                      '{0,1,2,3,80,254,255,256,...} incl. odd lengths and explicit-length truncate/fill; EPATHs of 0..3 segments over every kind x width '
                      '(8/16/32 bit logical, symbolic odd/even/255, port <15 / =15 / extended, numeric and address links), padded and single variants; status with '
@@ -397,7 +398,7 @@ def bounded(tier, seed):
 
 # ================================================================================================ proof tier
 from pyvc.spec import Spec, Loop, Custom
-from pyvc.vals import SeqV, IntV, BoolV, RefV, OpaqueV, ConstV, NONE, UnionV, USort, IntSeq, Unsupported
+from pyvc.vals import SeqV, IntV, BoolV, RefV, OpaqueV, ConstV, NONE, UnionV, USort, IntSeq, Unsupported, PyListV
 from . import wire_spec as WS
 
 P = "server/enip/parser.py"
@@ -410,6 +411,24 @@ SCALARS = [  # class, bytes, signed, big-endian
 ]
 
 
+def _scalar_sampler(n):
+    def sample(rng):
+        edge = [0, 1, -1, 127, 128, 255, 256, -128, -129, (1 << (8 * n - 1)) - 1, 1 << (8 * n - 1), -(1 << (8 * n - 1)), -(1 << (8 * n - 1)) - 1,
+                (1 << (8 * n)) - 1, 1 << (8 * n)]
+        return dict(value=rng.choice(edge + [rng.randint(-(1 << (8 * n)), 1 << (8 * n)) for _ in range(4)]))
+    return sample
+
+
+def _scalar_runner(cls):
+    def run(vals):
+        from cpppo.server.enip import parser
+        try:
+            return ('return', getattr(parser, cls).produce(vals['value']))
+        except Exception as e:
+            return ('raise', 'struct.error' if type(e).__name__ == 'error' else type(e).__name__)
+    return run
+
+
 def scalar_specs():
     out = []
     for cls, n, signed, big in SCALARS:
@@ -420,11 +439,12 @@ def scalar_specs():
                                   'result == ' + enc), ('size', 'len(result) == %d' % n)],
                         raises={'struct.error': 'not (%d <= value <= %d)' % (lo, hi)},
                         refuses=[('out-of-range', 'not (%d <= value <= %d)' % (lo, hi))], accepts=[('in-range', '%d <= value <= %d' % (lo, hi))],
-                        modifies=[], hints=dict(funcs=WS.FUNCS),
+                        modifies=[], hints=dict(funcs=WS.FUNCS, sample=_scalar_sampler(n), concrete=_scalar_runner(cls)),
                         note='TYPE.produce with cls = %s: struct_format read from the class constant in the AST' % cls))
     out.append(Spec('BOOL.produce', (P, 'BOOL.produce'), params={'value': 'Int'}, requires='0 <= value <= 255',
                     ensures=[('layout: 0x00 for false, 0xFF for any other value', 'result == (bytes_of(0) if value == 0 else bytes_of(255))')],
-                    raises={}, modifies=[], inline=['produce'], hints=dict(funcs=WS.FUNCS)))
+                    raises={}, modifies=[], inline=['produce'], hints=dict(funcs=WS.FUNCS, sample=lambda rng: dict(value=rng.choice([0, 1, 2, 254, 255, rng.randint(0, 255)])),
+                                                                         concrete=_scalar_runner('BOOL'))))
     return out
 
 
@@ -622,6 +642,115 @@ def unconnected_send_specs():
               raises={}, modifies=[], callees=callees, inline=['produce'], hints=dict(funcs=WS.FUNCS))
     return [s1, s2]
 
+
+
+def encapsulation_specs():
+    """register / send_data / connection_ID / connection_data / CPF_service producers (scalar producers inlined, CPF.produce and octets by assumed contract)"""
+    callees = dict(NESTED)
+    callees['octets_encode'] = octets_identity
+    callees['CPF.produce'] = opaque_callee('_g_cpf')
+
+    def mk(name, target, schema, requires, ensures, extra=()):
+        def build(eng, nm, st):
+            eng.init_vals['_g_cpf'] = SeqV(z3.Const('_g_cpf', IntSeq), 'bytes')
+            return rec_param(schema)(eng, nm, st)
+        return Spec(name, (P, target), params={'data': build}, requires=requires, ensures=[('layout', ensures)] + list(extra), raises={}, modifies=[],
+                    callees=callees, inline=['produce'], hints=dict(funcs=WS.FUNCS),
+                    note='scalar producers inlined; CPF.produce / octets_encode by assumed contract (opaque byte string / identity)')
+    return [
+        mk('register.produce', 'register.produce', {'protocol_version': ('int', '_g_pv'), 'options': ('int', '_g_opt')},
+           '0 <= _g_pv <= 0xffff and 0 <= _g_opt <= 0xffff', 'result == u16(_g_pv) + u16(_g_opt)', [('size', 'len(result) == 4')]),
+        mk('send_data.produce', 'send_data.produce', {'interface': ('int', '_g_if'), 'timeout': ('int', '_g_to'), 'CPF': ('opaque', '_g_cpfdata')},
+           '0 <= _g_if <= 0xffffffff and 0 <= _g_to <= 0xffff', 'result == u32(_g_if) + u16(_g_to) + _g_cpf'),
+        mk('connection_ID.produce', 'connection_ID.produce', {'connection': ('maybe', '_g_conn_given', ('int', '_g_conn'))},
+           '0 <= _g_conn <= 0xffffffff', 'result == u32(_g_conn if _g_conn_given else 0)', [('size', 'len(result) == 4')]),
+        mk('connection_data.produce', 'connection_data.produce', {'sequence': ('int', '_g_seq'), 'request': {'input': ('bytes', '_g_request')}},
+           '0 <= _g_seq <= 0xffff', 'result == u16(_g_seq) + _g_request'),
+        mk('CPF_service.produce', 'CPF_service.produce', {'CPF': ('maybe', '_g_cpf_given', ('opaque', '_g_cpfdata'))},
+           'True', 'result == (_g_cpf if _g_cpf_given else bytes_of())'),
+    ]
+
+
+# ------------------------------------------------------------------------------------------------ CPF.produce (item count enumerated 0..2, all field values)
+CPF_KINDS = {0x0001: 'legacy_CPF_0x0001', 0x00a1: 'connection_ID', 0x00b1: 'connection_data', 0x00b2: 'unconnected_send',
+             0x0100: 'communications_service', 0x000c: 'identity_object'}
+
+
+def produced_by_item(eng, recv, args, kw, st, n):
+    """ASSUMED contract of an item parser's produce(): some byte string determined by the sub-record it is given (one ghost per item)"""
+    a = args[0]
+    if not isinstance(a, OpaqueV):
+        raise Unsupported('item producer argument %r' % (a,))
+    g = '_g_prod_' + a.what
+    v = SeqV(z3.Const(g, IntSeq), 'bytes')
+    eng.init_vals.setdefault(g, v)
+    yield st, v
+
+
+def cpf_data(nitems, with_item=True):
+    def build(eng, name, st):
+        st = st.clone()
+        items = []
+        for j in range(nitems):
+            sch = {'type_id': ('int', '_g_type%d' % j), 'input': ('maybe', '_g_input%d_given' % j, ('bytes', '_g_input%d' % j))}
+            for nm in CPF_KINDS.values():
+                sch[nm] = ('maybe', '_g_sub%d_%s_given' % (j, nm), ('opaque', 'sub%d_%s' % (j, nm)))
+            r, st = build_rec(eng, st, sch, track=True)
+            items.append(r)
+            for nm in CPF_KINDS.values():
+                g = '_g_prod_sub%d_%s' % (j, nm)
+                eng.init_vals[g] = SeqV(z3.Const(g, IntSeq), 'bytes')
+        top = {}
+        rid = eng.new_id()
+        if with_item:
+            st2, ref = eng.new_list(st, PyListV(items))
+            st = st2
+            st.heap[(rid, 'item')] = (z3.BoolVal(True), ref)
+            st.heap[(rid, 'count')] = (z3.Bool('_g_count_given'), IntV(z3.Int('_g_count')))
+            keys = ('item', 'count')
+        else:
+            st.heap[(rid, 'count')] = (z3.BoolVal(True), IntV(z3.Int('_g_count')))
+            keys = ('count',)
+        eng.init_vals['_g_count'] = IntV(z3.Int('_g_count'))
+        st.heap[(rid, '__closed__')] = True
+        st.heap[(rid, '__keys__')] = keys
+        eng.tracked_refs.add(rid)
+        return RefV(rid, 'rec'), st
+    return build
+
+
+def cpf_item_layout(j):
+    known = ' or '.join('_g_type%d == %d' % (j, t) for t in CPF_KINDS)
+    prod = 'bytes_of()'
+    for t, nm in CPF_KINDS.items():
+        prod = '(_g_prod_sub%d_%s if _g_type%d == %d else %s)' % (j, nm, j, t, prod)
+    body = '(%s if (%s) else (_g_input%d if _g_input%d_given else bytes_of()))' % (prod, known, j, j)
+    return 'u16(_g_type%d) + u16(len(%s)) + %s' % (j, body, body), known, body
+
+
+def cpf_specs():
+    callees = {'octets_encode': octets_identity}
+    for nm in CPF_KINDS.values():
+        callees['%s.produce' % nm] = produced_by_item
+    out = [Spec('CPF.produce[no items: count == 0]', (P, 'CPF.produce'), params={'data': cpf_data(0, with_item=False)}, requires='_g_count == 0',
+                ensures=[('layout: an item count of zero', 'result == u16(0)')], raises={}, modifies=[], callees=callees, inline=['produce'],
+                hints=dict(funcs=WS.FUNCS), note='a CPF container without entries')]
+    for n in (0, 1, 2):
+        req, lay = [], 'u16(%d)' % n
+        for j in range(n):
+            item, known, body = cpf_item_layout(j)
+            lay += ' + ' + item
+            req.append('0 <= _g_type%d <= 0xffff and len(%s) <= 0xffff' % (j, body))
+            for t, nm in CPF_KINDS.items():
+                req.append('implies(_g_type%d == %d, _g_sub%d_%s_given)' % (j, t, j, nm))
+        mods = []
+        out.append(Spec('CPF.produce[%d items]' % n, (P, 'CPF.produce'), params={'data': cpf_data(n)}, requires=' and '.join(req) or 'True',
+                        ensures=[('layout: count, then type id, length and payload of every item in order (a known item type is re-produced by its parser class)',
+                                  'result == ' + lay)],
+                        raises={}, modifies=['#%d.input' % (j + 1) for j in range(n)], callees=callees, inline=['produce'], hints=dict(funcs=WS.FUNCS),
+                        note='ITEM COUNT ENUMERATED (0, 1, 2 items: what SendRRData / SendUnitData carry), all field values; the item producers are assumed '
+                             'callees (one opaque byte string per item); not proved for general N. Frame: only the .input of each item record (#k = k-th item) is assigned'))
+    return out
 
 
 
@@ -859,4 +988,4 @@ def typed_data_specs():
 
 def contracts(repo):
     return (scalar_specs() + string_specs() + [enip_encode_spec()] + logix_produce_specs() + unconnected_send_specs() + connection_specs()
-            + epath_specs() + [status_spec()] + typed_data_specs())
+            + epath_specs() + [status_spec()] + typed_data_specs() + encapsulation_specs() + cpf_specs())
